@@ -18,14 +18,17 @@ OBLIGATION_FILES = []
 PROPS_FILE = "C19/Props.v"
 SHARD = 70
 PER_CASE_TIMEOUT = 120
-RULE = ("histories of 1-4 fit_predict runs over small grids (<= 2 strategies x 2 datasets x 2-3 "
-        "folds, 4-7 instances per dataset; thorough: up to 3 x 3 x 3): for each grid / flag "
-        "combination EVERY crash point (k-th fit, k-th predict, all k) followed by a resume on the "
-        "same or a fresh results object and a third identical run; overwrite runs after complete "
-        "and after crashed runs; random flag / crash / fresh-object histories; RAMResults "
-        "histories; cv = KFold(2/3), SingleSplit (unshuffled and shuffled), PresplitFilesCV with "
-        "and without inner KFold; TSC and TSR strategies.  non-trivial = at least two runs of "
-        "which one crashed or skipped something; distinct = distinct canonical JSON case")
+RULE = ("histories of 1-4 fit_predict runs over small grids (<= 2 strategies x 2 datasets x 1-3 "
+        "folds, 4-7 instances per dataset; thorough: up to 3 x 3 x 3): 'resume' = for each grid / "
+        "flag combination EVERY crash point (k-th fit, k-th predict, all k) followed by a resume on "
+        "the same or a fresh results object and a third identical run; 'overwrite' = overwrite runs "
+        "after complete and after crashed runs, possibly crashing themselves; 'history' = random "
+        "flag / crash / fresh-object histories incl. the rejected flag combination; 'regrid' = later "
+        "runs over a sub-grid with a new results object (master file merge); 'ram' = RAMResults "
+        "histories; 'floatcsv' = fractional float predictions (oracle only); cv = KFold(2/3), "
+        "SingleSplit (unshuffled and shuffled), PresplitFilesCV with and without inner KFold; TSC "
+        "and TSR strategies.  non-trivial = at least two runs of which one crashed or skipped "
+        "something (RAM: a completed run); distinct = distinct canonical JSON case")
 TRUSTED = [
     "props/c19.py test doubles (_Dbl*: deterministic fit/predict, global call counters, raise on "
     "the k-th call) and their Gallina twins dbl_fit / dbl_pred in coq/C19/Cases.v",
@@ -159,8 +162,10 @@ def _grid(rng, n_s, n_d, cv, task=None, n_lo=4, n_hi=7):
     data = []
     for j in range(n_d):
         n = rng.randint(n_lo, n_hi)
-        if cv[0] == "kfold" and n < cv[1]:
-            n = cv[1]
+        if cv[0] == "kfold":
+            n = max(n, 2 * cv[1])            # every training fold keeps >= 2 rows
+        if cv[0] in ("single", "single_shuffle"):
+            n = max(n, cv[1] + 2)            # TSCTask.set_metadata wants several training rows
         xs = pool[9 * j: 9 * j + n]
         ys = [rng.randint(0, 3) if task == "tsc" else rng.randint(-5, 5) for _ in range(n)]
         labels = None
@@ -182,8 +187,10 @@ def _kfold_blocks(n, k):
     return [list(range(sum(sizes[:i]), sum(sizes[:i + 1]))) for i in range(k)]
 
 
-def _run(fresh=False, fail=None, **fl):
+def _run(fresh=False, fail=None, sel=None, **fl):
     r = {"fresh": bool(fresh), "fail": fail}
+    if sel is not None:
+        r["sel"] = sel              # [strategy names, dataset names] this run's Orchestrator gets
     for f in FLAGS:
         r[f] = bool(fl.get(f, False))
     return r
@@ -286,10 +293,31 @@ def gen_cases(rng, tier):
             fail = rng.choice([None, None] + _crash_points(n_tasks, fl["on_train"]))
             runs.append(_run(r == 0 or rng.random() < 0.3, fail, **fl))
         add("ram", "ram", g, runs)
-    # 5. float-valued predictions written to / read back from CSV (oracle only)
+    # 5. the grid changes between runs (new Orchestrator + results object over the same directory
+    #    with a sub-grid): the master file must keep the earlier names, the registry is merged
+    for i in range(45 if not thorough else 200):
+        cv = rng.choice([("kfold", 2), ("single", 2), ("presplit", None), ("single_shuffle", 2, 3)])
+        g = _grid(rng, 2, 2, cv)
+        sn = [x[0] for x in g["strategies"]]
+        dn = [d["name"] for d in g["datasets"]]
+
+        def sub():
+            a = rng.choice([sn, sn, [sn[0]], [sn[1]]])
+            b = rng.choice([dn, dn, [dn[0]], [dn[1]]])
+            return [list(a), list(b)]
+        runs = []
+        for r in range(rng.randint(2, 4)):
+            sel = sub()
+            fl = {"on_train": rng.random() < 0.5, "save_fit": rng.random() < 0.5,
+                  "ow_pred": rng.random() < 0.15}
+            n_tasks = len(sel[0]) * len(sel[1]) * _n_folds(cv)
+            fail = rng.choice([None, None, None] + _crash_points(n_tasks, fl["on_train"]))
+            runs.append(_run(True, fail, sel=sel, **fl))
+        add("regrid", "hdd", g, runs)
+    # 6. float-valued predictions written to / read back from CSV (oracle only)
     for i in range(6 if not thorough else 40):
         g = _grid(rng, 1, 1, ("kfold", 2), task="tsr")
-        g["scale"] = rng.choice([7, 3, 1000003])
+        g["scale"] = 7 if i % 2 == 0 else rng.choice([3, 49, 1000003])
         add("floatcsv", "hdd", g, [_run(True, None, on_train=True)])
     return cases
 
@@ -342,7 +370,11 @@ def _num(v):
     return int(f) if f == int(f) else repr(f)
 
 
-def _new_env(case, path):
+def _sel(case, r):
+    return r.get("sel") or [[x[0] for x in case["strategies"]], [d["name"] for d in case["datasets"]]]
+
+
+def _new_env(case, path, r):
     from sktime.benchmarking.data import RAMDataset
     from sktime.benchmarking.orchestration import Orchestrator
     from sktime.benchmarking.results import HDDResults, RAMResults
@@ -350,10 +382,12 @@ def _new_env(case, path):
     from sktime.benchmarking.tasks import TSCTask, TSRTask
     clf, reg = _make_doubles()
     tsr = case["task"] == "tsr"
-    datasets = [RAMDataset(_build_data(d, case["task"]), _dname(d["name"])) for d in case["datasets"]]
+    ssel, dsel = _sel(case, r)
+    datasets = [RAMDataset(_build_data(d, case["task"]), _dname(d["name"])) for d in case["datasets"]
+                if d["name"] in dsel]
     tasks = [(TSRTask if tsr else TSCTask)(target="target") for _ in datasets]
     strategies = [(TSRStrategy if tsr else TSCStrategy)((reg if tsr else clf)(p=p), name=_sname(s))
-                  for s, p in case["strategies"]]
+                  for s, p in case["strategies"] if s in ssel]
     results = HDDResults(path=path) if case["backend"] == "hdd" else RAMResults()
     return Orchestrator(tasks, datasets, strategies, _make_cv(case["cv"]), results)
 
@@ -477,6 +511,7 @@ def _run_history(case, path):
     _make_doubles()
     hdd = case["backend"] == "hdd"
     orch = None
+    cur_sel = None
     outs = []
     scale = case.get("scale")
     # the folds, from a cv.split call that is independent of the orchestrator
@@ -488,8 +523,11 @@ def _run_history(case, path):
                       for tr, te in cv0.split(data, data["target"])])
     n_folds = cv0.get_n_splits()
     for r in case["runs"]:
-        if orch is None or r["fresh"]:
-            orch = _new_env(case, path)
+        if orch is None or r["fresh"] or _sel(case, r) != cur_sel:
+            if not (orch is None or r["fresh"]):
+                raise AssertionError("case changes the grid without a fresh results object")
+            orch = _new_env(case, path, r)
+            cur_sel = _sel(case, r)
         res = orch.results
         if hdd:
             before = _walk(path)
@@ -595,8 +633,7 @@ def oracle(case, out):
     if case["kind"] == "floatcsv":
         return _oracle_float(case, out)
     exp = _expected(case, folds)
-    grid3 = sorted({k[:3] for k in exp})
-    n_tasks = len(grid3)
+    grid3_all = sorted({k[:3] for k in exp})
     # arguments of a fit call -> the task it belongs to; the parts of a task by their instances
     fit_key, part_xs = {}, {}
     for j, d in enumerate(case["datasets"]):
@@ -610,6 +647,12 @@ def oracle(case, out):
         tag = "run %d" % ri
         if not hdd and r["fresh"]:
             prev = {}
+        ssel, dsel = _sel(case, r)            # the grid of this run's Orchestrator
+        grid3 = [k for k in grid3_all if k[0] in ssel and k[1] in dsel]
+        n_tasks = len(grid3)
+        base_reg = out["runs"][ri - 1]["reg"] if ri and not r["fresh"] else [[], []]
+        prev_master = (out["runs"][ri - 1]["master"] if ri else None) or [[], []]
+        this_run = (tuple(r[x] for x in FLAGS), tuple(ssel), tuple(dsel))
         cur = {tuple(x[:4]): x[4:] for x in o["files"]}
         written = {tuple(x) for x in o["written"]}
         no_ow = not r["ow_pred"] and not r["ow_fit"]
@@ -711,7 +754,7 @@ def oracle(case, out):
             if o["status"] == "done" and sorted(fit_keys) != need_fit:
                 return "fits-not-exactly-the-incomplete-tasks: %s fits %s needed %s" % (
                     tag, sorted(fit_keys), need_fit)
-            if prev_done_flags == tuple(r[x] for x in FLAGS) and (o["nfit"] or o["npredict"] or written):
+            if prev_done_flags == this_run and (o["nfit"] or o["npredict"] or written):
                 return "identical-rerun-performs-fits: %s nfit %d npredict %d" % (
                     tag, o["nfit"], o["npredict"])
         if r["ow_pred"] and o["status"] == "done":
@@ -735,24 +778,36 @@ def oracle(case, out):
                 for k, v in cur.items():
                     if v != exp[k]:
                         return "final-store-differs-from-uninterrupted-run: %s %s" % (tag, k)
-            sn = sorted(s for s, _ in case["strategies"])
-            dn = sorted(d["name"] for d in case["datasets"])
-            if o["reg"] != [sn, dn]:
-                return "registry-incomplete: %s registry %s expected %s" % (tag, o["reg"], [sn, dn])
-            if hdd and o["master"] != [sn, dn]:
-                return "master-file-incomplete: %s %s" % (tag, o["master"])
+            # registry: the run's strategies and datasets, whatever the object had registered
+            # before, and (on disk) the names already in the master file, which is rewritten
+            want_reg = [sorted(set(base_reg[0]) | set(ssel) | (set(prev_master[0]) if hdd else set())),
+                        sorted(set(base_reg[1]) | set(dsel) | (set(prev_master[1]) if hdd else set()))]
+            if not (set(ssel) <= set(o["reg"][0]) and set(dsel) <= set(o["reg"][1])):
+                return "registry-incomplete: %s registry %s run's grid %s" % (tag, o["reg"], [ssel, dsel])
+            if o["reg"] != want_reg:
+                return "registry-not-merged-with-master-file: %s registry %s expected %s" % (
+                    tag, o["reg"], want_reg)
+            if hdd and o["master"] != o["reg"]:
+                return "master-file-incomplete: %s %s registry %s" % (tag, o["master"], o["reg"])
             # read back == stored
+            sn, dn = o["reg"]
             for fo, it, recs in o["loaded"]:
-                if it in req or all((s, d, fo, it) in cur for s in sn for d in dn):
-                    if recs is None:
-                        return "read-back-fails-after-complete-run: %s fold %d part %s" % (
-                            tag, fo, ITEMS[it])
+                have_all = all((s, d, fo, it) in cur for s in sn for d in dn)
+                if have_all and recs is None:
+                    return "read-back-fails-after-complete-run: %s fold %d part %s" % (
+                        tag, fo, ITEMS[it])
+                if not have_all and recs is not None:
+                    return "read-back-of-a-missing-record-succeeds: %s fold %d part %s" % (
+                        tag, fo, ITEMS[it])
+                if it in req and set(ssel) == set(sn) and set(dsel) == set(dn) and recs is None:
+                    return "read-back-fails-after-complete-run: %s fold %d part %s" % (
+                        tag, fo, ITEMS[it])
                 if recs is not None:
                     got = {(x[0], x[1], fo, it): x[2:] for x in recs}
                     want = {(s, d, fo, it): cur.get((s, d, fo, it)) for s in sn for d in dn}
                     if got != want:
                         return "read-back-not-equal-to-stored: %s fold %d part %s" % (tag, fo, ITEMS[it])
-            prev_done_flags = tuple(r[x] for x in FLAGS) if no_ow else None
+            prev_done_flags = this_run if no_ow else None
         else:
             prev_done_flags = None
             if hdd and o["master"] != (out["runs"][ri - 1]["master"] if ri else None):
@@ -800,12 +855,17 @@ def shrink(case):
             if d["runs"]:
                 d["runs"] = [dict(d["runs"][0], fresh=True)] + d["runs"][1:]
             yield d
-    if len(case["strategies"]) > 1:
+    has_sel = any(r.get("sel") for r in runs)
+    if has_sel:
+        d = dict(case)
+        d["runs"] = [{k: v for k, v in r.items() if k != "sel"} for r in runs]
+        yield d
+    if len(case["strategies"]) > 1 and not has_sel:
         for i in range(len(case["strategies"])):
             d = dict(case)
             d["strategies"] = case["strategies"][:i] + case["strategies"][i + 1:]
             yield d
-    if len(case["datasets"]) > 1:
+    if len(case["datasets"]) > 1 and not has_sel:
         for i in range(len(case["datasets"])):
             d = dict(case)
             d["datasets"] = case["datasets"][:i] + case["datasets"][i + 1:]
@@ -872,9 +932,10 @@ def _cfail(f):
     return "None" if not f else "(Some (%s, %s))" % (cbool(f[0] == "fit"), cz(f[1]))
 
 
-def _crunspec(r):
-    return "{| r_fresh := %s; r_flags := %s; r_fail := %s |}" % (cbool(r["fresh"]), _cflags(r),
-                                                                _cfail(r["fail"]))
+def _crunspec(r, case):
+    ssel, dsel = _sel(case, r)
+    return "{| r_fresh := %s; r_flags := %s; r_fail := %s; r_sel := (%s, %s) |}" % (
+        cbool(r["fresh"]), _cflags(r), _cfail(r["fail"]), czlist(ssel), czlist(dsel))
 
 
 _STATUS = {"done": 0, "crashed": 1, "rejected": 2, "notimpl": 3}
@@ -925,7 +986,7 @@ def _cdata(case, folds):
 def coq_case(case, out):
     if case["kind"] == "floatcsv":
         return None
-    runs = clist(["(%s, %s)" % (_crunspec(r), _cobs(o, out["folds"]))
+    runs = clist(["(%s, %s)" % (_crunspec(r, case), _cobs(o, out["folds"]))
                   for r, o in zip(case["runs"], out["runs"])])
     return "Case %s %s %s %s %s %s" % (cbool(case["backend"] == "hdd"), cbool(case["task"] == "tsr"),
                                        _cstrats(case), _cdata(case, out["folds"]), _ccv(case["cv"]),
@@ -938,9 +999,9 @@ def coq_model_term(case):
     c = dict(case)
     if c["cv"][0] == "single_shuffle":
         c["cv"] = ["single", c["cv"][1]]
-    return "model_history %s %s (case_tasks %s %s %s) %s empty_store" % (
+    return ("model_history %s %s {| g_strats := %s; g_data := %s; g_cv := %s |} %s empty_store" % (
         cbool(c["backend"] == "hdd"), cbool(c["task"] == "tsr"), _cstrats(c), _cdata(c, None),
-        _ccv(c["cv"]), clist([_crunspec(r) for r in c["runs"]]))
+        _ccv(c["cv"]), clist([_crunspec(r, c) for r in c["runs"]])))
 
 
 def distribution(cases, results):
@@ -958,6 +1019,9 @@ def distribution(cases, results):
                 d["crash-at:" + rr["fail"][0]] += 1
             if rr["fresh"]:
                 d["run:fresh-object"] += 1
+            if rr.get("sel"):
+                d["run:sub-grid" if len(rr["sel"][0]) * len(rr["sel"][1]) < len(c["strategies"]) * len(c["datasets"])
+                  else "run:full-grid-after-sub-grid"] += 1
             if oo["status"] == "done" and oo["nfit"] == 0:
                 d["run:nothing-to-do"] += 1
     return dict(d)
